@@ -81,9 +81,23 @@ def one_short_write(res, W, rng, plen, plan, gen):
         conn.write_plan = (rng.randrange(1, 3000) for _ in itertools.count())
         desc = "random"
     before = len(peer.client_stream)
-    api = rng.choice(["send_binary", "send_frame", "ping"]) if plen <= 125 else "send_binary"
+    api = rng.choice(["send_binary", "send_frame", "ping", "direct_str", "cont_str"]) if plen <= 125 else rng.choice(["send_binary", "send_binary", "direct_str", "cont_str"])
+    judge_payload = True
     try:
-        if api == "send_binary":
+        if api == "direct_str":
+            # an ABNF object built directly around a str (characters up to U+00FF): whatever bytes the text becomes, what one call
+            # writes is one complete frame whose declared length matches the bytes that follow
+            text = "".join(chr(rng.choice([rng.randrange(0x20, 0x7f), rng.randrange(0xa0, 0x100)])) for _ in range(plen))
+            ret = w.send_frame(W.ABNF(1, 0, 0, 0, W.ABNF.OPCODE_BINARY, 1, text))
+            op = R.BINARY
+            judge_payload = False
+        elif api == "cont_str":
+            text = "".join(chr(rng.choice([rng.randrange(0x20, 0x7f), rng.randrange(0xa0, 0x800), rng.randrange(0x4e00, 0x9fff)])) for _ in range(plen // 2))
+            payload = text.encode("utf-8")
+            plen = len(payload)
+            ret = w.send_frame(W.ABNF.create_frame(text, W.ABNF.OPCODE_CONT, 1))
+            op = R.CONT
+        elif api == "send_binary":
             ret = w.send_binary(payload)
             op = R.BINARY
         elif api == "send_frame":
@@ -105,7 +119,7 @@ def one_short_write(res, W, rng, plen, plan, gen):
     except R.Incomplete:
         res.violation("short-write-frame-incomplete", f"plan {desc} len {plen}: {len(written)} bytes accepted do not hold one frame", case, gen=gen)
         return
-    if f.end != len(written) or f.payload != payload or f.opcode != op or not f.masked:
+    if f.end != len(written) or (judge_payload and f.payload != payload) or f.opcode != op or not f.masked:
         res.violation("short-write-frame-damaged", f"plan {desc} len {plen}: frame end {f.end}/{len(written)}, payload equal={f.payload == payload}", case, gen=gen)
     elif ret != len(written):
         res.violation("short-write-return-value", f"plan {desc} len {plen}: returned {ret}, frame has {len(written)} bytes", case, gen=gen)
@@ -249,11 +263,11 @@ def judge_senders(res, obs, S, nthreads, nframes, tag, with_recv=False):
     return issues, case, order, mid_frame_switch
 
 
-def receiver_scenario(W, nthreads, stream_builder, line_points, seg_rng, api="recv"):
+def receiver_scenario(W, nthreads, stream_builder, line_points, seg_rng, api="recv", whole=False):
     def scen():
         S = sched.CURRENT
         stream, msgs, pings = stream_builder()
-        cuts = sorted({seg_rng.randrange(1, len(stream)) for _ in range(seg_rng.choice([3, 8, 20]))})
+        cuts = None if whole else sorted({seg_rng.randrange(1, len(stream)) for _ in range(seg_rng.choice([3, 8, 20]))})
         w, conn, peer = H.connected_ws()
         conn.deliver(stream, cuts=cuts)
         conn.peer_close()
@@ -307,6 +321,17 @@ def build_recv_stream(rng):
                 pings.append(p)
         msgs.append(body.decode() if text else body)
     return b"".join(parts), msgs, pings
+
+
+def build_mixed_small(rng):
+    """few short unfragmented messages of alternating kind in one segment: small enough for a preemption at *every* line"""
+    msgs, parts = [], []
+    for i in range(4):
+        text = (i % 2 == 0)
+        body = b"t%d" % i if text else b"\xff\x00b%d" % i
+        parts.append(R.encode(R.TEXT if text else R.BINARY, body))
+        msgs.append(body.decode() if text else body)
+    return b"".join(parts), msgs, []
 
 
 def build_frame_stream(rng):
@@ -472,6 +497,9 @@ def run(res, tier, seed, shard, nshards):
     jobs.append(("RF", 3, "random-line", 100 if quick else 2500))
     jobs.append(("RF", 2, "dfs", 600 if quick else 20000))
     jobs.append(("R", 3, "sweep2-line", 300 if quick else 20000))
+    # every single line of a short run as the one preemption point (messages of alternating kind)
+    jobs.append(("RM", 2, "sweep-line", 100000))
+    jobs.append(("RM", 3, "sweep2-line", 300 if quick else 20000))
     jobs.append(("RF", 2, "sweep2-line", 300 if quick else 20000))
     for ji, job in enumerate(jobs):
         if ji % nshards != shard:
@@ -490,6 +518,12 @@ def run(res, tier, seed, shard, nshards):
             tag = ("senders-slow-transport", nt, nf, piece, mode)
             explore(res, lambda: sender_scenario(W, nt, nf, piece, False, False, slow=(0.05, 0.2)),
                     lambda obs, S: _js(res, obs, S, nt, nf, tag, False), tag, mode, budget, seed * 1000 + ji, "sender_schedules")
+        elif job[0] == "RM":
+            _, nt, mode, budget = job
+            tag = ("receivers-mixed-kinds", nt, mode)
+            fixed = build_mixed_small(None)
+            explore(res, lambda: receiver_scenario(W, nt, lambda: fixed, True, random.Random(ji), whole=True),
+                    lambda obs, S: _jr(res, obs, S, tag), tag, mode.replace("-line", ""), budget, seed * 1000 + ji, "receiver_schedules")
         elif job[0] == "RF":
             _, nt, mode, budget = job
             line = mode.endswith("-line")
